@@ -39,6 +39,9 @@ CHECKS = {
     "C33": ("structural", "model_checking", "TLA+ Structural.tla: links and the conditional-format area and rule reference are displaced by the same sigma as formulas; Clear / Undo / CutPaste actions; ClearUndoIdentity invariant; every behaviour replayed and get_links_list / get_conditional_formatting_list compared",
             "Link positions, CF area and CF rule formula after every step of every behaviour (all structural edits, clear, undo of clear, cut and paste of a linked cell).",
             "One rule, one area; copy (not cut) and paste over occupied cells are not modelled here.", "4 C33"),
+    "C06": ("cases", "model_checking", "TLA+ Value.tla: a reference evaluator of the core formula language (exact rationals, coercion, comparison order, error propagation, direct vs referenced arguments) evaluated by TLC on every enumerated formula; each formula typed into the engine and the values compared",
+            "Every construct over 22 leaves at depth 1 (10 612 formulas, quick) and over depth-1 operands at depth 2 (108 136, thorough) on a sheet holding every value type; TypeOK invariant on the evaluator.",
+            "The reference semantics is this module's reading of the spreadsheet rules; cases it cannot state exactly carry no verdict.", "4 C06"),
     "C10": ("frames", "model_checking", "TLA+ FrameLaws.tla / Frames.tla (what each operation may change; small design model checked by TLC) and TraceFrames.tla: recorded operation events validated by TLC against the law of their action",
             "SetLanguage leaves values, stored formulas, names and conditional formats unchanged; SetLocale leaves stored formulas, names, conditional formats and locale-independent values unchanged; shown content typed back in any language leaves the stored formula and values unchanged - on seeded random sequences over 5 languages x 6 locales.",
             "One workbook; sampled sequences (80 quick / 1200 thorough runs of 25 operations).", "4 C10"),
@@ -126,7 +129,7 @@ def main():
         "engines": [
             {"name": "history", "path": "spec/History.tla, spec/MC_History.tla, spec/TraceHistory.tla, bin/fam_history.py, harness/src/{world,histrec,ops,gen,project}.rs", "serves_properties": ["C01", "C02", "C03", "C04", "C26"], "kind_free_text": "TLC model checking + bidirectional conformance"},
             {"name": "selection", "path": "spec/Selection.tla, spec/MC_Selection.tla, spec/TraceSelection.tla, harness/src/behreplay.rs", "serves_properties": ["C28"], "kind_free_text": "TLC model checking + bidirectional conformance"},
-            {"name": "cases", "path": "spec/{Calendar,Grid,Lang,F4,NumberInput,NumberFormat}.tla, bin/fam_cases.py, harness/src/cases.rs", "serves_properties": ["C08", "C09", "C11", "C25", "C29", "C30", "C19", "C20", "C21", "C22", "C23", "C34"], "kind_free_text": "TLC case enumeration with expected results, replayed on the implementation"},
+            {"name": "cases", "path": "spec/{Calendar,Grid,Lang,F4,NumberInput,NumberFormat}.tla, bin/fam_cases.py, harness/src/cases.rs", "serves_properties": ["C06", "C08", "C09", "C11", "C25", "C29", "C30", "C19", "C20", "C21", "C22", "C23", "C34"], "kind_free_text": "TLC case enumeration with expected results, replayed on the implementation"},
             {"name": "structural", "path": "spec/Structural.tla, bin/fam_cases.py (StructuralFam), harness/src/structural.rs", "serves_properties": ["C12", "C13", "C14", "C15", "C33"], "kind_free_text": "TLC behaviour enumeration with expected abstract state, replayed on the implementation"},
             {"name": "xlsxrt", "path": "spec/Xlsx.tla, spec/TraceXlsx.tla, bin/fam_xlsx.py, harness/src/xlsxrt.rs", "serves_properties": ["C24"], "kind_free_text": "TLC trace validation of recorded export/import round trips"},
             {"name": "frames", "path": "spec/FrameLaws.tla, spec/Frames.tla, spec/TraceFrames.tla, bin/fam_xlsx.py, harness/src/frames.rs", "serves_properties": ["C10", "C17", "C32"], "kind_free_text": "TLC trace validation of per-operation frame laws"},
